@@ -12,8 +12,8 @@ import (
 func init() {
 	register(&propDef{
 		ID:       "C20",
-		Explain:  "Decided for the synthetic target's generator (structural necessary conditions): all randomness comes from *rand.Rand objects created by rand.New(rand.NewSource(seed)) with the queue seed or the value's own seed, no package-level math/rand, no crypto/rand, time.Now only on the seed==0 edge of queue.New, and no map iteration order reaches the emitted sequence (same config + same non-zero seed => same draws, single goroutine); range generators clamp: the stored value is the maximum when above it, the minimum when below it, the drawn value otherwise (evaluated on all boundary combinations, int/uint/double); timestamp deltas are refused when min>max or min<0, so steps are non-negative, and the new timestamp is t + Int63n(max-min+1) + min; repeat boundaries: Repeat==1 drops the value without touching the message, Repeat>1 decrements the clone (never the configuration object), Repeat==0 leaves it, and Next re-adds a value only while it is alive; Next returns the head element read before it is advanced; unless disabled, a sync value with repeat 1 stamped with the same queue's latest timestamp is added after the queue is built; every generator/convertor covers all value kinds or returns an error/nil explicitly. Also decided: UpdateQueue.Next removes the returned entry from the head before it re-inserts the regenerated value (addValue's placement search never sees the entry being returned). Round-3 addition: a value computed from a random draw never reaches .Value without passing both range comparisons. Also decided: the placement search of addValue replayed with 0..3 queued buckets and the new timestamp below / equal to / above the queued ones (older than all => new first bucket, newer than all => new last bucket, equal => joins that bucket, the search terminates) - the per-call core of 'non-decreasing timestamp order'.",
-		NotCover: "placement of a new timestamp strictly between two queued ones (only the uniform below / equal / above scenarios of the search are replayed), exact repeat counts when Add is called during iteration, overflow of max-min+1, concurrent use (Latest reads without the mutex)",
+		Explain:  "Decided for the synthetic target's generator (structural necessary conditions): all randomness comes from *rand.Rand objects created by rand.New(rand.NewSource(seed)) with the queue seed or the value's own seed, no package-level math/rand, no crypto/rand, time.Now only on the seed==0 edge of queue.New, and no map iteration order reaches the emitted sequence (same config + same non-zero seed => same draws, single goroutine); range generators clamp: the stored value is the maximum when above it, the minimum when below it, the drawn value otherwise (evaluated on all boundary combinations, int/uint/double); timestamp deltas are refused when min>max or min<0, so steps are non-negative, and the new timestamp is t + Int63n(max-min+1) + min; repeat boundaries: Repeat==1 drops the value without touching the message, Repeat>1 decrements the clone (never the configuration object), Repeat==0 leaves it, and Next re-adds a value only while it is alive; Next returns the head element read before it is advanced; unless disabled, a sync value with repeat 1 stamped with the same queue's latest timestamp is added after the queue is built; every generator/convertor covers all value kinds or returns an error/nil explicitly. Also decided: UpdateQueue.Next removes the returned entry from the head before it re-inserts the regenerated value (addValue's placement search never sees the entry being returned). Round-3 addition: a value computed from a random draw never reaches .Value without passing both range comparisons. Also decided: the placement search of addValue replayed with 0..3 queued buckets and the new timestamp at every position (strictly before bucket k => new bucket at index k, equal to bucket k => joins bucket k, the search terminates) - the per-call core of 'non-decreasing timestamp order'.",
+		NotCover: "ordering with more than 3 queued buckets (the search is replayed exhaustively for 0..3 buckets and every position of the new timestamp; larger queues by the same arms), exact repeat counts when Add is called during iteration, overflow of max-min+1, concurrent use (Latest reads without the mutex)",
 		Run:      runC20,
 	})
 }
@@ -471,7 +471,7 @@ func runC20(c *Ctx) {
 		}
 	}
 	// ---- placement search of addValue
-	c.Rule("C20.order", "UpdateQueue.addValue, replayed with 0..3 timestamp buckets queued (counters folded): a value older than every queued timestamp is inserted as a new first bucket, a value newer than all as a new last bucket, a value equal to a queued timestamp is appended to that bucket (no new bucket); the search terminates in every scenario")
+	c.Rule("C20.order", "UpdateQueue.addValue, replayed with 0..3 timestamp buckets queued (counters folded) and the new timestamp at every possible position: strictly before bucket k (k = 0..n, n = after all) => inserted as a new bucket at index k; equal to bucket k => appended to that bucket, no new bucket; the search terminates in every scenario")
 	{
 		fQ := P.Field("testing/fake/queue", "UpdateQueue", "q")
 		if fQ == nil {
@@ -493,14 +493,57 @@ func runC20(c *Ctx) {
 				if root.V == vP {
 					return "T"
 				}
-				return "T2"
-			}
-			for qlen := int64(0); qlen <= 3; qlen++ {
-				for _, rel := range []int{-1, 0, 1} {
-					if qlen == 0 && rel != 0 {
+				// the timestamp of bucket k: …u.q[k][0].v.Timestamp.Timestamp with k constant on this path
+				cur := RV{r.F, fa.X}
+				for i := 0; i < 24; i++ {
+					cur = e.Resolve(st, cur)
+					switch x := cur.V.(type) {
+					case *ssa.UnOp:
+						cur = RV{cur.F, x.X}
+						continue
+					case *ssa.FieldAddr:
+						cur = RV{cur.F, x.X}
+						continue
+					case *ssa.IndexAddr:
+						if loadOfField(e.Resolve(st, RV{cur.F, x.X}).V, fQ) || loadOfField(x.X, fQ) {
+							if k, ok := e.intVal(st, e.Resolve(st, RV{cur.F, x.Index}), 0); ok {
+								return fmt.Sprintf("T2@%d", k)
+							}
+							return "T2"
+						}
+						cur = RV{cur.F, x.X}
 						continue
 					}
-					at := &Atoms{Class: tsClass, Rel: map[[2]string]int{{"T", "T2"}: rel}, Bool: map[string]bool{}}
+					break
+				}
+				return "T2"
+			}
+			type pos struct {
+				at    int64 // the new timestamp lies before bucket `at` (== qlen: after all)
+				equal bool  // ... or equals the timestamp of bucket `at`
+			}
+			for qlen := int64(0); qlen <= 3; qlen++ {
+				var scs []pos
+				for k := int64(0); k <= qlen; k++ {
+					scs = append(scs, pos{k, false})
+					if k < qlen {
+						scs = append(scs, pos{k, true})
+					}
+				}
+				for _, sc := range scs {
+					rel := 0 // kept for the messages below: -1 before all, +1 after all
+					relMap := map[[2]string]int{}
+					for k := int64(0); k < qlen; k++ {
+						v := 1
+						switch {
+						case sc.equal && k == sc.at:
+							v = 0
+						case k >= sc.at:
+							v = -1
+						}
+						relMap[[2]string{"T", fmt.Sprintf("T2@%d", k)}] = v
+					}
+					at := &Atoms{Class: tsClass, Rel: relMap, Bool: map[string]bool{}}
 					hi := []int64{}
 					e := &PPA{Cond: func(e *PPA, st *State, rv RV) (bool, bool) {
 						// the latest-timestamp bookkeeping is irrelevant here; nil timestamp: present
@@ -555,7 +598,11 @@ func runC20(c *Ctx) {
 					e.Run(addValue)
 					c.Paths += len(e.Paths)
 					c.Scen++
-					name := fmt.Sprintf("%d buckets queued, new timestamp %+d vs the queued ones", qlen, rel)
+					_ = rel
+					name := fmt.Sprintf("%d buckets queued, new timestamp before bucket %d", qlen, sc.at)
+					if sc.equal {
+						name = fmt.Sprintf("%d buckets queued, new timestamp equal to bucket %d", qlen, sc.at)
+					}
 					n := 0
 					for i := range e.Paths {
 						p := &e.Paths[i]
@@ -564,33 +611,29 @@ func runC20(c *Ctx) {
 						}
 						n++
 						insertAt := ""
-						joined := false
+						joined := ""
 						for j := range p.Trace {
 							ev := &p.Trace[j]
 							if ev.Label == "fact" && strings.HasPrefix(ev.Note, "insert-at:") {
 								insertAt = strings.TrimPrefix(ev.Note, "insert-at:")
 							}
 							if strings.HasPrefix(ev.Label, "store:") && ev.Field != fQ {
-								joined = true
+								joined = "?"
+								if strings.HasPrefix(ev.Note, "idx:") {
+									joined = strings.TrimPrefix(ev.Note, "idx:")
+								}
 							}
 						}
 						var ok bool
 						want := ""
-						switch {
-						case qlen == 0:
-							want = "new bucket at 0"
-							ok = insertAt == "0" && !joined
-						case rel < 0:
-							want = "new bucket at 0"
-							ok = insertAt == "0" && !joined
-						case rel > 0:
-							want = fmt.Sprintf("new bucket at %d", qlen)
-							ok = insertAt == fmt.Sprint(qlen) && !joined
-						default:
-							want = "appended to the bucket with that timestamp"
-							ok = insertAt == "" && joined
+						if sc.equal {
+							want = fmt.Sprintf("appended to bucket %d", sc.at)
+							ok = insertAt == "" && joined == fmt.Sprint(sc.at)
+						} else {
+							want = fmt.Sprintf("new bucket at %d", sc.at)
+							ok = insertAt == fmt.Sprint(sc.at) && joined == ""
 						}
-						c.Check(ok, "C20.order", fnName(addValue), name, P.Pos(addValue.Pos()), fmt.Sprintf("want %s; new bucket at %q, joined a bucket=%v; path: %s", want, insertAt, joined, p.String()))
+						c.Check(ok, "C20.order", fnName(addValue), name, P.Pos(addValue.Pos()), fmt.Sprintf("want %s; new bucket at %q, joined bucket %q; path: %s", want, insertAt, joined, p.String()))
 					}
 					c.Check(n >= 1, "C20.order", fnName(addValue), name+": the search terminates", P.Pos(addValue.Pos()), fmt.Sprintf("%d returning paths, %d cut at the unrolling bound", n, e.Truncated))
 				}
